@@ -60,7 +60,7 @@ class Ctx:
 
     def _mk(self, rule, node, func, what, how, ok, nontrivial, extra):
         m = getattr(node, 'srcmod', None) if node is not None else None
-        if m is None and func is not None:
+        if m is None and func is not None and hasattr(func, 'module'):
             m = func.module
         file = m.relpath if m is not None else '?'
         line = getattr(node, 'lineno', 0) if node is not None else 0
